@@ -239,7 +239,59 @@ def _block_shaped(p: int, t: str) -> bool:
     return result(got == exp, len(t) > 0)
 
 
+# ------------------------------------------------------------------ decoded values of quoted strings (escape sequences)
+from py_gql.exc import GraphQLSyntaxError  # noqa: E402
+
+# prefix (inside the quotes), suffix, max symbolic length quick / thorough
+STRING_SHAPES = [
+    ("", "", 2, 3), ("\\", "", 2, 3), ("\\u", "", 2, 4), ("\\u00", "", 2, 3), ("a\\", "b", 1, 2),
+    ("\\\\u00", "", 2, 2),          # an escaped backslash followed by uXXXX is NOT a unicode escape
+    ("\\\\", "u0041", 1, 2), ("\\\\", "", 2, 3), ("\\\\\\", "", 2, 3), ("\\\"\\", "", 1, 2), ("\\\\", "n", 1, 2), ("\\u005C", "", 1, 2),
+]
+
+
+def string_shape_ok(p, t) -> bool:
+    i = concrete_int(p, 0, len(STRING_SHAPES) - 1)
+    return len(t) <= STRING_SHAPES[i][3 if thorough() else 2]
+
+
+def _string_value(p: int, t: str) -> bool:
+    """
+    pre: 0 <= p < len(STRING_SHAPES)
+    pre: shard_of(p)
+    pre: string_shape_ok(p, t)
+    post: _
+    """
+    i = concrete_int(p, 0, len(STRING_SHAPES) - 1)
+    src = '"' + STRING_SHAPES[i][0] + t + STRING_SHAPES[i][1] + '"'
+    # reference: the lexical grammar's StringValue with the specification's escape table
+    try:
+        ref = R.tokens(src)
+    except R.RefSyntaxError:
+        ref = None
+    except R.DontCare:
+        return result(True, False)
+    # (whatever follows the closing quote must be ignorable: a comment, commas, blanks - the reference lexer drops those)
+    wanted = ref is not None and len(ref) == 1 and ref[0][0] == "String" and ref[0][1] == 0
+    try:
+        node = parse_value(src)
+    except GraphQLSyntaxError:
+        return result(not wanted, False)
+    if not wanted:
+        return result(False, True)
+    ok = type(node) is A.StringValue and (not node.block) and node.value == ref[0][3] and node.loc == (0, ref[0][2])
+    return result(ok, True)
+
+
 CONDITIONS = [
+    Cond(
+        name="string_value", fn=_string_value, quick=90, thorough=600, per_path=30, shards_quick=len(STRING_SHAPES), shards_thorough=len(STRING_SHAPES),
+        bound="quoted strings '\"' + prefix + t + suffix + '\"' for the %d shapes in STRING_SHAPES (plain, after a backslash, inside a \\u escape, after an ESCAPED backslash followed by text that looks like an escape) with "
+              "symbolic t (len <= 1..4 per shape): parse_value gives a StringValue whose value is the reference decoding (specification escape table) and whose span is the whole text, or a syntax error exactly when the reference rejects" % len(STRING_SHAPES),
+        symbolic={"p": "choice: shape", "t": "data: symbolic middle of the string"},
+        assumptions=["oracle: oracles/ref_lexer.py (StringCharacter / EscapedUnicode / EscapedCharacter)", "int(str, 16) on a symbolic all-hex string is modelled arithmetically (vf/chfix.py)"],
+        witness={"p": 5, "t": "41"},
+    ),
     Cond(
         name="block_shaped", fn=_block_shaped, quick=300, thorough=900, per_path=30, shards_quick=len(BLOCK_SHAPES), shards_thorough=len(BLOCK_SHAPES),
         bound="raw block-string content prefix + t + suffix for %d multi-line layouts (indented text lines around the symbolic part, CRLF/CR breaks, tabs, leading/trailing blank lines) with symbolic t of <= 2 (thorough 3) characters" % len(BLOCK_SHAPES),
